@@ -124,7 +124,14 @@ def r2(ctx):
     loc = ctx.index.loc(ctx.index.func(q).node)
     I = Interp(ctx.index, Config(stubs=_fold_stubs({})))
     groups = {}
-    for host, nop, tag in _cases():
+    cases = _cases()
+    if ctx.tier == "thorough":
+        # every name of 1..3 labels over the label set {a, b, ab, ba} against every leading-dot domain of 1..2 labels
+        labels = ["a", "b", "ab", "ba"]
+        names = [".".join(t) for n in (1, 2, 3) for t in itertools.product(labels, repeat=n)]
+        doms = ["." + ".".join(t) for n in (1, 2) for t in itertools.product(labels, repeat=n)]
+        cases += [(h, [d], "domain-exhaustive") for d in doms for h in names]
+    for host, nop, tag in cases:
         def body(run):
             return I.call(run, I.make_fn(run, q), [C(host), new_list(run, [C(x) for x in nop])], {}, None)
         outs = I.explore(body)
